@@ -153,10 +153,19 @@ def get_image_quadrants(IM, reorient=True, symmetry_axis=None,
         if np.sum(use_quadrants)<4:
             warnings.warn("Using Fourier transformation to symmetrize the"
                           " data will use all 4 quadrants!!")
+            use_quadrants = (True, True, True, True)
+
+        def real_components(IM):
+            # Fourier components relative to the image center
+            # (which is at a half-integer pixel for even sizes)
+            m = IM.shape[1]
+            phase = np.exp(1j * np.pi * np.arange(m) * (m - 1) / m)
+            return fftpack.ifft((fftpack.fft(IM) * phase).real / phase).real
+
         if 0 in symmetry_axis:
-            IM = fftpack.ifft(fftpack.fft(IM).real).real
+            IM = real_components(IM)
         if 1 in symmetry_axis:
-            IM = fftpack.ifft(fftpack.fft(IM.T).real).T.real
+            IM = real_components(IM.T).T
 
     # define 4 quadrants of the image
     # see definition above
